@@ -17,7 +17,8 @@ LEVEL = 'proof'
 ALLOWED_AXIOMS = ()
 TRUSTED_BASE = [
     'C20/Model.v is hand-written from cflib/crtp/radiodriver.py (parse_uri, connect, scan_interface), the scheme tests '
-    'of the six drivers, cflib/crtp/__init__.py (get_link_driver, init_drivers) and Crazyflie.open_link; '
+    'of the six drivers, cflib/crtp/__init__.py (get_link_driver, init_drivers), Crazyflie.open_link and '
+    'uri_helper.address_from_env (radio:// URIs); '
     'tied on every run by differential evaluation on generated URIs (well-formed, mutated and foreign-scheme)',
     'CPython 3.12 urllib.parse.urlparse/parse_qs, str.format, int(), binascii.unhexlify and struct.unpack are re-modelled '
     'for printable ASCII (Model.in_scope) and validated by the same differential runs',
@@ -37,7 +38,8 @@ PROVED = ('parse_uri returns dongle id, channel, data rate, MSB-first 5-byte add
           'E7E7E7E7E7, optional rate_limit); every URI produced by scan_interface parses back to the scanned channel, '
           'rate and address and the address given to the radio during the scan is the same; the six scheme tests are '
           'pairwise exclusive, get_link_driver returns the unique claiming driver or None, unknown schemes give None; '
-          'open_link never lets an exception escape and calls connection_failed exactly once when there is no link.')
+          'open_link never lets an exception escape and calls connection_failed exactly once when there is no link; '
+          'uri_helper.address_from_env returns the same address as parse_uri for every well-formed URI.')
 NOT_PROVED = ('CfLinkCppDriver; behaviour on non-ASCII or percent-escaped URIs; what happens after a driver was '
               'selected (connection setup is C02).')
 
@@ -239,6 +241,32 @@ def impl_parse(uri, serials):
     if not ok:
         return ['badtypes', repr(r)]
     return ['POk', devid, ch, rate, list(addr), lim]
+
+
+def impl_env_address(uri):
+    """uri_helper.address_from_env() with CFLIB_URI=uri: ['EnvAddr', n] | ['EnvNone'] | ['EnvRaise', type]."""
+    import contextlib as _c
+    import io
+    import os
+    from cflib.utils import uri_helper
+    old = os.environ.get('CFLIB_URI')
+    os.environ['CFLIB_URI'] = uri
+    try:
+        with _c.redirect_stderr(io.StringIO()):
+            try:
+                r = uri_helper.address_from_env()
+            except Exception as e:  # noqa
+                return ['EnvRaise']
+    finally:
+        if old is None:
+            del os.environ['CFLIB_URI']
+        else:
+            os.environ['CFLIB_URI'] = old
+    if r is None:
+        return ['EnvNone']
+    if type(r) is int:
+        return ['EnvAddr', r]
+    return ['badtype', repr(r)]
 
 
 def impl_connect_calls(uri, serials):
@@ -557,6 +585,25 @@ def tie(ctx):
         elif len(samples) < 3 and got[0] == 'POk' and got[5] is not None:
             samples.append({'uri': u, 'serials': s, 'impl': got})
 
+    # ---- 1b. uri_helper.address_from_env on the same URIs (radio:// ones; the model covers that grammar)
+    ecases = [u for u, _, _ in cases if u.startswith('radio://')]
+    ecases = list(dict.fromkeys(ecases))[:ctx.scale(1200, 12000)]
+    emodel = coqrun.eval_terms(HEADER, ['(in_scope (%s), address_from_env (%s))' % (_cs(u), _cs(u)) for u in ecases],
+                               tag='c20e', shard=250)
+    dist['env_address'] = 0
+    for u, mv in zip(ecases, emodel):
+        if not mv[0]:
+            continue
+        got = impl_env_address(u)
+        m = _norm(mv[1])
+        m = m if isinstance(m, list) else [m]
+        dist['env_address'] += 1
+        if got != m:
+            if len(dis) < 14:
+                dis.append({'what': 'address_from_env: model and implementation differ', 'uri': u, 'model': m, 'impl': got})
+        elif got[0] == 'EnvAddr' and got[1] != 0xE7E7E7E7E7:
+            nontriv += 1
+
     # ---- 2. RadioDriver.connect applies exactly the parsed settings to the shared radio
     ccases = []
     for i in range(ctx.scale(150, 1500)):
@@ -678,7 +725,7 @@ def tie(ctx):
         elif sum(i_claims) == 1:
             nontriv += 1
     return {
-        'evaluations': sum(dist[k] for k in ('parse_wellformed', 'parse_mutated', 'parse_other_scheme', 'connect_calls', 'scan', 'dispatch')),
+        'evaluations': sum(dist[k] for k in ('parse_wellformed', 'parse_mutated', 'parse_other_scheme', 'env_address', 'connect_calls', 'scan', 'dispatch')),
         'distinct_nontrivial': nontriv,
         'rule': 'parse_uri on well-formed URIs (every channel 0..125, 3 rates, 1..10 hex digits in random case, numeric and '
                 'serial-number dongles with random serial lists, omitted suffixes, query options), 1-2 random edits of '
@@ -720,12 +767,19 @@ def _check_wellformed(uri, serials, exp):
     """The property text for one well-formed URI: parse_uri returns exactly the values it was built from."""
     got = impl_parse(uri, serials)
     want = ['POk', exp['devid'], exp['channel'], exp['rate'], list(exp['address'].to_bytes(5, 'big')), exp['limit']]
-    if got == want:
-        return None
     if got == ['PRaise', 'EValue'] and exp.get('form') in ('none', 'slash'):
         return {'class': 'radio_uri_without_channel_raises',
                 'case': {'fn': 'parse_uri', 'uri': uri, 'serials': serials, 'expect': exp}, 'expected': want, 'observed': got,
                 'detail': 'a radio URI with the channel omitted must parse with channel 2, 2M, E7E7E7E7E7'}
+    if got == want:
+        env = impl_env_address(uri)
+        if env != ['EnvAddr', exp['address']]:
+            return {'class': 'env_address_differs_from_uri_address',
+                    'case': {'fn': 'parse_uri', 'uri': uri, 'serials': serials, 'expect': exp},
+                    'expected': ['EnvAddr', exp['address']], 'observed': env,
+                    'detail': 'uri_helper.address_from_env must return the address the URI names (default when omitted, '
+                              'also with query options)'}
+        return None
     cls = 'wellformed_uri_raises' if got[0] != 'POk' else (
         'wrong_address' if got[4] != want[4] else 'wrong_channel' if got[2] != want[2] else
         'wrong_rate' if got[3] != want[3] else 'wrong_dongle' if got[1] != want[1] else 'wrong_rate_limit')
